@@ -187,3 +187,94 @@ example : ((run demoScript {} (demoIns ++ [.op (.close 0)])).hs 0).closePending 
 example : ((run demoScript {} (demoIns ++ [.op (.close 0), .timerClosed 1])).hs 0).closePending = true := by decide
 
 end UvModel.Props.C17
+
+namespace UvModel.Props.C17.Event
+open UvModel.FsEvent
+
+/-! ## fs_event -/
+
+/-- **event_reaches_all_watchers.**  In any reachable state (outside `uv__inotify_read`), dispatching an
+    inotify record whose wd has the watcher list `w` calls, in list order, exactly the handles
+    `specDeliver … w.watchers`: the head of the detached list, then — after removing whatever that
+    callback stopped or closed — the rest; every call carries the record's name (or the basename of the
+    list's path when the record has none) and `eventsOf mask` (UV_CHANGE iff IN_ATTRIB|IN_MODIFY bits,
+    UV_RENAME iff any other bit).  Handles started on the same wd *during* this dispatch are appended to
+    the list but not to the detached queue: they are not called for the current record. -/
+theorem event_reaches_all_watchers (sc : Script) (ins : List In) (r : Rec) (w : WL)
+    (hw : (run sc {} ins).lists r.wd = some w) :
+    cbsOf (dispatchRec sc (run sc {} ins) r).trace =
+      ((specDeliver sc w.watchers.length (run sc {} ins).ncb w.watchers).map
+        (fun h => (h, r.name.getD w.path, eventsOf r.mask))).reverse ++ cbsOf (run sc {} ins).trace :=
+  rec_cbs sc (inv_run sc inv_init idle_init ins).1 (inv_run sc inv_init idle_init ins).2 r hw
+
+/-- a record for a wd without a list (stale event) calls nobody -/
+theorem stale_record_ignored (sc : Script) (s : S) (r : Rec) (hw : s.lists r.wd = none) :
+    dispatchRec sc s r = s := by
+  simp [dispatchRec, find, hw]
+
+/-- delivered exactly once, only to handles that were in the list at dispatch start, in list order -/
+theorem delivered_at_most_once_in_order (sc : Script) (f k : Nat) (q : List Nat) :
+    (specDeliver sc f k q).Sublist q := specDeliver_sublist sc f k q
+
+/-- **none lost for the others**: a handle of the list that is not called was stopped or closed by one of
+    the callbacks that ran for this very record (before its turn) -/
+theorem skipped_only_if_stopped (sc : Script) (k : Nat) (q : List Nat) (h : Nat)
+    (hm : h ∈ q) (hn : h ∉ specDeliver sc q.length k q) :
+    ∃ j, j < (specDeliver sc q.length k q).length ∧ ∃ o ∈ sc (k + j), stopTarget o = some h :=
+  specDeliver_skipped sc q.length k q h (Nat.le_refl _) hm hn
+
+/-- **no event to the stopped handle**: after the j-th callback of this record stopped or closed `h`,
+    `h` is not called again for this record (not even if it is restarted on the same path meanwhile) -/
+theorem no_event_after_stop (sc : Script) (f k : Nat) (q : List Nat) (hnd : q.Nodup) (j : Nat) (o : Op) (h : Nat)
+    (ho : o ∈ sc (k + j)) (hs : stopTarget o = some h) (hj : j < (specDeliver sc f k q).length) :
+    h ∉ (specDeliver sc f k q).drop (j + 1) :=
+  specDeliver_no_later sc f k q hnd j o h ho hs hj
+
+/-- **stop_in_callback_safe.**  In every reachable state: the ownership discipline was never violated
+    (`err = false`: no watcher list accessed after it was freed, on any path, with any callback script);
+    nothing is left detached or marked iterating; a watcher list exists exactly for the wds that have an
+    active handle — it was freed exactly when it became empty and was not being iterated; its members are
+    exactly the active handles watching that wd, each once.  In particular a stopped or closed handle is
+    in no list, so no later record can reach it. -/
+theorem stop_in_callback_safe (sc : Script) (ins : List In) :
+    let s := run sc {} ins
+    s.err = false ∧ s.queue = [] ∧
+    (∀ wd w, s.lists wd = some w → w.iterating = false ∧ w.watchers ≠ [] ∧ w.watchers.Nodup ∧
+        ∀ h ∈ w.watchers, (s.hs h).active = true ∧ (s.hs h).wd = wd) ∧
+    (∀ h, (s.hs h).active = true → ∃ w, s.lists (s.hs h).wd = some w ∧ h ∈ w.watchers) := by
+  intro s
+  obtain ⟨hi, hd⟩ := inv_run sc inv_init idle_init ins
+  refine ⟨hi.noErr, hd.q, fun wd w hw => ?_, fun h ha => ?_⟩
+  · exact ⟨hd.noIt wd w hw, hi.nonempty wd w hw (hd.noIt wd w hw), hi.ndW wd w hw, fun h hm => hi.memW wd w h hw hm⟩
+  · cases hl : s.lists (s.hs h).wd with
+    | none => exact absurd hl (hi.actSome h ha)
+    | some w =>
+      refine ⟨w, rfl, ?_⟩
+      rcases hi.act h w ha hl with hm | hm
+      · exact hm
+      · rw [hd.q] at hm; cases hm
+
+/-- the same holds in the middle of a dispatch, where it matters: while the callbacks of a record run,
+    the iterated list is never freed and the model never reaches an error state -/
+theorem no_use_after_free_during_dispatch (sc : Script) (ins : List In) (rs : List Rec) :
+    (dispatch sc (run sc {} ins) rs).err = false :=
+  (inv_dispatch sc (inv_run sc inv_init idle_init ins).1 (inv_run sc inv_init idle_init ins).2 rs).1.noErr
+
+/-! ### non-vacuity -/
+
+/-- three handles on wd 5; the first callback stops itself and h1, and restarts h0 on the same wd -/
+def demoSc : Script := fun k => if k = 0 then [.stop 0, .stop 1, .start 0 2 5 0] else []
+def demoIns : List In := [.op (.start 0 0 5 0), .op (.start 1 1 5 1), .op (.start 2 2 5 0), .op (.start 3 3 7 0)]
+
+example : ((run demoSc {} demoIns).lists 5).map (·.watchers) = some [0, 1, 2] := by decide
+example : specDeliver demoSc 3 0 [0, 1, 2] = [0, 2] := by decide
+example : cbsOf (dispatchRec demoSc (run demoSc {} demoIns) ⟨5, 2, none⟩).trace =
+    [(2, "w5_0", 2), (0, "w5_0", 2)] := by decide
+example : ((dispatchRec demoSc (run demoSc {} demoIns) ⟨5, 2, none⟩).lists 5).map (·.watchers) = some [0, 2] := by decide
+example : eventsOf 2 = UV_CHANGE ∧ eventsOf 4 = UV_CHANGE ∧ eventsOf 0x100 = UV_RENAME ∧
+    eventsOf 0x40000002 = UV_CHANGE ||| UV_RENAME ∧ eventsOf 0x8000 = UV_RENAME := by decide
+/-- the list is freed (and only then) when its last handle stops -/
+example : ((run demoSc {} (demoIns ++ [.op (.stop 3)])).lists 7).isNone = true := by decide
+example : ((run demoSc {} demoIns).lists 7).isSome = true := by decide
+
+end UvModel.Props.C17.Event
